@@ -167,6 +167,47 @@ impl c2pa::http::AsyncHttpResolver for Recorder {
     }
 }
 
+/// in-memory stream whose reads follow a schedule: the i-th read returns at most `shorts[i]` bytes or fails
+struct FaultyCursor {
+    data: Vec<u8>,
+    pos: u64,
+    k: usize,
+    shorts: Vec<u64>,
+    errs: Vec<bool>,
+}
+
+impl std::io::Read for FaultyCursor {
+    fn read(&mut self, buf: &mut [u8]) -> std::io::Result<usize> {
+        let k = self.k;
+        self.k += 1;
+        if self.errs.get(k).copied().unwrap_or(false) {
+            return Err(std::io::Error::new(std::io::ErrorKind::Other, "scheduled read failure"));
+        }
+        let short = self.shorts.get(k).copied().unwrap_or(u64::MAX).max(1);
+        let rem = (self.data.len() as u64).saturating_sub(self.pos);
+        let c = (buf.len() as u64).min(rem).min(short) as usize;
+        let p = self.pos as usize;
+        buf[..c].copy_from_slice(&self.data[p..p + c]);
+        self.pos += c as u64;
+        Ok(c)
+    }
+}
+
+impl std::io::Seek for FaultyCursor {
+    fn seek(&mut self, from: std::io::SeekFrom) -> std::io::Result<u64> {
+        let np: i128 = match from {
+            std::io::SeekFrom::Start(p) => p as i128,
+            std::io::SeekFrom::End(o) => self.data.len() as i128 + o as i128,
+            std::io::SeekFrom::Current(o) => self.pos as i128 + o as i128,
+        };
+        if np < 0 || np > u64::MAX as i128 {
+            return Err(std::io::Error::new(std::io::ErrorKind::InvalidInput, "seek out of range"));
+        }
+        self.pos = np as u64;
+        Ok(self.pos)
+    }
+}
+
 /// minimal executor: the scripted transports never yield, so one poll completes the future
 fn block_on<F: std::future::Future>(fut: F) -> F::Output {
     use std::task::{Context, Poll, RawWaker, RawWakerVTable, Waker};
@@ -246,6 +287,28 @@ fn call(f: &str, a: &[Value]) -> Value {
             let r = d.pad_to_size(desired);
             let fin = data_len(&d).unwrap();
             json!({"base": base, "desired": desired, "ok": r.is_ok(), "final": fin, "pad": d.pad.len(), "has_pad2": d.pad2.is_some(), "pad2": d.pad2.as_ref().map(|p| p.len()).unwrap_or(0)})
+        }
+        // C35: ReaderUtils::read_to_vec over a stream with scheduled short reads / failures
+        // args = [data (latin-1), pos, n, shorts[], errs[]]
+        "read_to_vec_faulty_okbytes" => {
+            let mut r = call("read_to_vec_faulty", a);
+            r.as_object_mut().unwrap().remove("reads");
+            r
+        }
+        "read_to_vec_faulty" => {
+            use c2pa::verif_hooks::io_utils::ReaderUtils;
+            let data: Vec<u8> = s(&a[0]).chars().map(|c| c as u32 as u8).collect();
+            let mut fc = FaultyCursor {
+                data,
+                pos: a[1].as_u64().unwrap(),
+                k: 0,
+                shorts: a[3].as_array().unwrap().iter().map(|v| v.as_u64().unwrap()).collect(),
+                errs: a[4].as_array().unwrap().iter().map(|v| v.as_bool().unwrap()).collect(),
+            };
+            match fc.read_to_vec(a[2].as_u64().unwrap()) {
+                Ok(v) => json!({"ok": true, "bytes": v.iter().map(|b| *b as char).collect::<String>(), "reads": fc.k}),
+                Err(_) => json!({"ok": false, "bytes": "", "reads": fc.k}),
+            }
         }
         "merkle_scenario" => merkle_scenario(a),
         // sync vs async twins of the two resolver wrappers on the same script
